@@ -542,6 +542,18 @@ pub mod model {
         c.w[k]
     }
 
+    /// A worker came back although the owner table gives it position `p`: that is an early exit which no
+    /// predicate announced (`first()` has no predicate) if the counterexample's cut lies at or before `p`.
+    fn early_exit_without_notice(p: usize) -> bool {
+        let mut c = CTL.lock().unwrap();
+        if c.cut.is_none() && c.cut_p <= p {
+            c.cut = Some(c.cut_p);
+            true
+        } else {
+            false
+        }
+    }
+
     /// advance the schedule until every position below `limit` (and below the cut) has been
     /// pulled by its owner
     fn drive(limit: usize) {
@@ -570,6 +582,9 @@ pub mod model {
                 diverged(&format!("position {p} is owned by worker {k} which is not spawned yet"));
             }
             if st == W::Done {
+                if early_exit_without_notice(p) {
+                    continue;
+                }
                 diverged(&format!("worker {k} finished before pulling position {p}"));
             }
             let st = resume(k);
@@ -593,7 +608,11 @@ pub mod model {
                     }
                     pending.push(k);
                 }
-                W::Done => diverged(&format!("worker {k} finished before pulling position {p}")),
+                W::Done => {
+                    if !early_exit_without_notice(p) {
+                        diverged(&format!("worker {k} finished before pulling position {p}"));
+                    }
+                }
                 _ => diverged("unexpected worker state"),
             }
         }
